@@ -457,6 +457,14 @@ class Model:
             v = self.ev.ev(o[1])
             i = self.ev.ev(o[2])
             return self.index(v, i)
+        if o[0] == "subslice":
+            v = self.ev.ev(o[1])
+            if isinstance(v, tuple) and v[0] == "list":
+                hi = len(v[1]) - o[3] if o[4] else o[3]
+                if not 0 <= o[2] <= hi <= len(v[1]):
+                    raise Panic("subslice")
+                return ("list", v[1][o[2]:hi])
+            raise Unknown("subslice of a non-array")
         if o[0] == "agg":
             d = o[1]
             if d and d[0] == "array":
@@ -593,18 +601,29 @@ class Model:
         m = re.search(r"<impl u8>::(is_ascii\w*)$|<impl char>::(is_ascii\w*)$", d)
         if m and (m.group(1) or m.group(2)) in ASCII:
             return 1 if ASCII[m.group(1) or m.group(2)](ev.ev(args[0])) else 0
-        if re.search(r"Iterator::(all|any)$", d) and len(args) == 2 and args[1][0] == "agg" and args[1][1][0] == "closure":
+        def apply(f, x):
+            """a closure literal or a function item applied to one value"""
+            if f[0] == "agg" and f[1][0] == "closure":
+                return self.eval_body(f[1][1], self.closure_args(f, x, ev))
+            if f[0] == "fnconst":
+                v = self.call(f[1], f[2], [("value", x)], ev)
+                if v is None:
+                    raise Unknown("call %s" % (f[2] or f[1]))
+                return v
+            raise Unknown("callable")
+        callable_arg = len(args) == 2 and ((args[1][0] == "agg" and args[1][1][0] == "closure") or args[1][0] == "fnconst")
+        if re.search(r"Iterator::(all|any)$", d) and callable_arg:
             seq = ev.ev(args[0])
             if not (isinstance(seq, tuple) and seq[0] == "list"):
                 raise Unknown("iterator over a non-array")
-            res = [self.eval_body(args[1][1][1], self.closure_args(args[1], x, ev)) for x in seq[1]]
+            res = [apply(args[1], x) for x in seq[1]]
             return (1 if all(res) else 0) if d.endswith("all") else (1 if any(res) else 0)
-        if re.search(r"Iterator::(find|position|find_map)$", d) and len(args) == 2 and args[1][0] == "agg" and args[1][1][0] == "closure":
+        if re.search(r"Iterator::(find|position|find_map)$", d) and callable_arg:
             seq = ev.ev(args[0])
             if not (isinstance(seq, tuple) and seq[0] == "list"):
                 raise Unknown("iterator over a non-array")
             for i, x in enumerate(seq[1]):
-                r = self.eval_body(args[1][1][1], self.closure_args(args[1], x, ev))
+                r = apply(args[1], x)
                 if d.endswith("find_map"):
                     if not (isinstance(r, tuple) and r[0] == "opt"):
                         raise Unknown("find_map closure result")
